@@ -5,7 +5,7 @@ ID = 'C10'
 HARNESSES = ['h_hist.cpp', 'h_c09.cpp']
 LEVEL = 'model_checking'
 BUDGET = {'quick': 290, 'thorough': 5400}
-BOUNDS = {'quick': 'Parameter::set(data, dims) refused for inconsistent dimensions (every extent a free byte) on a parameter holding nothing / ints / strings / a locked float, for int, float and string data: the parameter must be unchanged; every throwing call in all histories of depth 2 (56 operations incl. partly-invalid arguments: second of two new points/channels duplicate, untyped parameter into a new group, unnamed parameter, unknown group; 6 start states); full dump before = full dump after decided by z3 (payload symbolic); object printed, saved and reloaded afterwards',
+BOUNDS = {'quick': 'Parameter::set(data, dims) refused for inconsistent dimensions (every extent a free byte) on a parameter holding nothing / ints / strings / a locked float, for int, float and string data: the parameter must be unchanged; every throwing call in all histories of depth 2 (56 operations incl. partly-invalid arguments: second of two new points/channels duplicate, untyped parameter into a new group, unnamed parameter, unknown group; 7 start states (6 in the quick tier)); full dump before = full dump after decided by z3 (payload symbolic); object printed, saved and reloaded afterwards',
           'thorough': 'the same plus depth 3 (unchanged-after-refusal judged after every refused call; the save+reload epilogue only for the depth-2 histories)'}
 OUTSIDE = 'refusals not in the alphabet; histories deeper than the bound'
 ASSUMPTIONS = []
